@@ -245,7 +245,11 @@ func c12GenMain(rng *zz.RNG, s *zz.Session, thorough bool) []string {
 		ops = append(ops, fmt.Sprintf("rns %s 0", zz.Hex(file)))
 		s.Count("boundary:uvarint-prefix")
 	}
-	for _, b := range [][]byte{nil, {0x80}, {0x80, 0x80, 0x80, 0x80, 0x80, 0x80, 0x80, 0x80, 0x80, 0x02}, {0xff, 0xff, 0xff, 0xff, 0xff, 0xff, 0xff, 0xff, 0xff, 0xff, 0x01}} {
+	for _, b := range [][]byte{nil, {0x80}, {0x80, 0x80, 0x80, 0x80, 0x80, 0x80, 0x80, 0x80, 0x80, 0x02}, {0xff, 0xff, 0xff, 0xff, 0xff, 0xff, 0xff, 0xff, 0xff, 0xff, 0x01},
+		// readNodeSize adds the uvarint's width to its value in uint64 arithmetic without looking at the width's sign:
+		// ten continuation bytes (width 0), the ten-byte encoding of 2^64-1 (the sum wraps to 9), 2^64-10, 2^64-11
+		{0x80, 0x80, 0x80, 0x80, 0x80, 0x80, 0x80, 0x80, 0x80, 0x80}, {0xff, 0xff, 0xff, 0xff, 0xff, 0xff, 0xff, 0xff, 0xff, 0x01},
+		{0xf6, 0xff, 0xff, 0xff, 0xff, 0xff, 0xff, 0xff, 0xff, 0x01}, {0xf5, 0xff, 0xff, 0xff, 0xff, 0xff, 0xff, 0xff, 0xff, 0x01}} {
 		pn(b, "-")
 		ops = append(ops, fmt.Sprintf("rns %s 0", zz.Hex(append(append([]byte(nil), b...), make([]byte, 10)...))))
 	}
